@@ -239,6 +239,20 @@ func (x *g) freshName(kind string) string {
 		if fs.used[nm] {
 			return false
 		}
+		// a var that is already declared in this function may only be redeclared in the very same scope
+		// (otherwise the typed view of the enclosing scope goes stale: the same variable silently changes
+		// type and pure expressions on it, e.g. "p" in obj, start to throw)
+		if fi.varNames[nm] {
+			same := false
+			for _, b := range x.sc.vars {
+				if b.name == nm {
+					same = true
+				}
+			}
+			if !same {
+				return false
+			}
+		}
 		return true
 	}
 	// free globals are never declared at top level (they must stay free)
